@@ -40,7 +40,7 @@ TReset ==
   /\ Is("Reset") /\ Consume
   /\ key' = "" /\ cIn' = None /\ cOut' = None /\ noMore' = FALSE /\ doRet' = FALSE
   /\ pc' = [a \in Att |-> "new"] /\ adir' = [a \in Att |-> "in"] /\ akey' = [a \in Att |-> ""]
-  /\ areq' = [a \in Att |-> 0] /\ cancelled' = {} /\ outcome' = [a \in Att |-> "none"] /\ nreq' = 0
+  /\ areq' = [a \in Att |-> 0] /\ cancelled' = {} /\ outcome' = [a \in Att |-> "none"] /\ nreq' = 0 /\ hung' = 0
   /\ told' = {} /\ ready' = 0 /\ gone' = 0 /\ gens' = 0 /\ act' = [n |-> "Reset"]
 
 TNext == TArriveUni \/ TArriveIO \/ TAdmit \/ TProxyEnd \/ TRelease \/ TShutdown \/ TReset
